@@ -93,6 +93,7 @@ def plan(tier, seed):
     n_shards = 16 if tier == "quick" else 64
     specs = [{"seed": seed * 6311 + i * 141650939 + 47, "docs": 140 if tier == "quick" else 1500}
              for i in range(n_shards)]
+    specs.append({"leg": "exotic-names", "seed": seed * 733 + 11, "docs": 250 if tier == "quick" else 4000})
     for i in range(2 if tier == "quick" else 8):
         specs.append({"leg": "reference-target", "seed": seed * 311 + i * 15487469 + 5,
                       "docs": 400 if tier == "quick" else 4000})
@@ -116,6 +117,77 @@ def ref_target_view(text, var):
 
 
 MALFORMED_KEYS = ["", " ", "a.", ".a", "a..b", '"x', "${x", "a b", "1a", "a.\"", "\t"]
+
+
+# binding names as they may be spelled in a file: quoted, with dots / quotes / interpolations
+# (also interpolations that contain strings with dots) inside the quotes, dynamic
+EXOTIC_NAMES = ['"${f "x.y"}"', '"a.b"', '"x${y}.z"', '${d}', '"${a.b}"', '"q\\"r"', '"with space"',
+                '"${g "p.q" "r.s"}"', '"1x"', '"a.${b}.c"', "plain'", '"x-${v}"']
+
+
+def run_exotic_names_leg(spec, res):
+    """One binding per exotic spelling among plain ones; get / set / del through the mapping by
+    that very spelling: the value comes back, the text keeps one binding per name, the deleted
+    one (and only it) is gone."""
+    from nix_manipulator import parse
+    rng = random.Random(spec["seed"])
+    obs = res["observed"]
+    obs.update({"ops": {}, "targets": {}, "key_classes": {}, "laws_checked": 0, "views_compared": 0,
+                "exotic_names": {}})
+    nontriv = set()
+    for di in range(spec["docs"]):
+        names = rng.sample(EXOTIC_NAMES, rng.choice([1, 2, 3]))
+        lines = [f"  k{i} = {i};" for i in range(rng.choice([0, 1, 3]))]
+        for j, nm in enumerate(names):
+            lines.insert(rng.randrange(len(lines) + 1), f"  {nm} = {100 + j};")
+        wrap = rng.choice(["bare", "let", "nested"])
+        body = "{\n" + "\n".join(lines) + "\n}"
+        text = {"bare": body + "\n", "let": "let\n  v = 1;\nin\n" + body + "\n",
+                "nested": "{\n  m = " + body.replace("\n", "\n  ") + ";\n}\n"}[wrap]
+        wal(f"exotic {spec['seed']}:{di}")
+        nm = rng.choice(names)
+        op = rng.choice(["get", "set", "del"])
+        B.bump(obs["exotic_names"], nm)
+        B.bump(obs["ops"], op)
+        res["evaluations"] += 1
+        nontriv.add(B.h64(text + op + nm))
+        key = {"target": "exotic-name", "op": op, "wrappers": wrap, "name_class":
+               ("interpolation-with-string" if '${' in nm and nm.count('"') > 2 else
+                "interpolation" if "${" in nm else "quoted" if nm.startswith('"') else "bare")}
+        case = {"initial": text, "history": [[op, nm]]}
+        try:
+            src = parse(text)
+            m = src["m"] if wrap == "nested" else src
+            n_before = text.count(" = ")
+            if op == "get":
+                v = m[nm]
+                got = getattr(v, "value", v)
+                if got != 100 + names.index(nm):
+                    B.record(res, {**key, "effect": "lookup-returns-another-value"}, case, repr(got))
+            elif op == "set":
+                m[nm] = 7
+                out = src.rebuild()
+                if out.count(" = ") != n_before or f"{nm} = 7;" not in out:
+                    B.record(res, {**key, "effect": "text-disagrees-with-mapping"}, case, out[:400])
+                else:
+                    back = m[nm]
+                    if getattr(back, "value", back) != 7:
+                        B.record(res, {**key, "effect": "lookup-after-set-differs"}, case, repr(back))
+            else:
+                del m[nm]
+                out = src.rebuild()
+                if out.count(" = ") != n_before - 1 or f"{nm} = " in out:
+                    B.record(res, {**key, "effect": "text-disagrees-with-mapping"}, case, out[:400])
+                try:
+                    m[nm]
+                    B.record(res, {**key, "effect": "lookup-after-del-succeeds"}, case, "")
+                except KeyError:
+                    pass
+            obs["laws_checked"] += 1
+        except Exception as exc:  # noqa: BLE001
+            B.record(res, {**key, "effect": "raised", "exc": type(exc).__name__}, case, str(exc)[:200])
+    res["nontrivial"] = sorted(nontriv)
+    return res
 
 
 def run_reference_leg(spec, res):
@@ -232,6 +304,8 @@ def run_shard(spec):
     res = B.new_result()
     if spec.get("leg") == "reference-target":
         return run_reference_leg(spec, res)
+    if spec.get("leg") == "exotic-names":
+        return run_exotic_names_leg(spec, res)
     obs = res["observed"]
     obs.update({"ops": {}, "targets": {}, "key_classes": {}, "laws_checked": 0, "views_compared": 0})
     nontriv = set()
